@@ -12,7 +12,7 @@ from vlib.wire import Wire, normalise, same_json
 PROP = 'C14'
 MANIFEST = dict(
     text="Program-quantified symbolic check of JsonSchemaValidator (+ the real, pure-Python jsonschema 3.2.0) through the real dispatchers: signatures of 1..2 (quick) / 1..3 (thorough) parameters with / without defaults, "
-         "per-parameter schema fragments {integer, string, boolean, array, object, enum, integer with minimum/maximum} plus required (also for parameters that have a Python default, i.e. a schema stricter than the signature) / additionalProperties:false, positional / named passing, a context parameter, a parameter removed by the exclusion predicate. "
+         "per-parameter schema fragments {integer, string, boolean, array, object, enum, integer with minimum/maximum} plus required (also for parameters that have a Python default, i.e. a schema stricter than the signature) / additionalProperties:false, positional / named passing, a context parameter, a parameter removed by the exclusion predicate, the same validated function registered twice (plain and with its first parameter as context, either served first). "
          "Argument values are symbolic within bounded domains (ints in {-1,0,1,2,3,10,11}, strings in {'', 'a', 'b'}, both booleans) per concrete JSON kind. Oracle: executed <=> binds and a reference semantics of the schema fragment holds for the bound arguments; "
          "otherwise -32602 whose data survives the server JSON encoder, body not run; accepted arguments reach the method unchanged; the context / excluded parameters cannot be set by the client.",
     ref='5 C14',
@@ -60,6 +60,8 @@ def obligations(tier):
             obs.append({'h': 'validate', 'disp': disp, 'params': [[frag, True, vk]], 'passing': passing, 'extra': 'reqall'})
             for vb in ('int', 'absent'):
                 obs.append({'h': 'validate', 'disp': disp, 'params': [[frag, True, vk], ['integer', True, vb]], 'passing': passing, 'extra': 'reqall'})
+        for frag, vk, passing in it.product(('integer', 'enum'), ('int', 'str'), ('pos', 'named')):
+            obs.append({'h': 'twice', 'disp': disp, 'frag': frag, 'vk': vk, 'passing': passing})
         for extra in ('ctx', 'excluded', 'unknown', 'strict'):
             for frag, vk, passing in it.product(('integer', 'enum', 'string'), ('int', 'str'), ('pos', 'named')):
                 obs.append({'h': 'validate', 'disp': disp, 'params': [[frag, False, vk]], 'passing': passing, 'extra': extra})
@@ -238,5 +240,57 @@ def h_validate(ob):
         if not same_json(rdoc.get('result'), want):
             raise Violation('result-differs', (rdoc, want))
         return ['executed']
+
+    return run
+
+
+def h_twice(ob):
+    """The SAME validated function served twice by one dispatcher: as `plain(p0, p1='D')` and as `withctx` where p0 is the
+    context parameter.  Whichever is called first must not change how the other one binds / validates."""
+    def run(env):
+        import pjrpc.server
+        from pjrpc.server.validators import jsonschema as jsv_mod
+        is_async = ob['disp'] == 'async'
+        validator = jsv_mod.JsonSchemaValidator()
+        log = []
+        ns = {'log': log}
+        kw = 'async def' if is_async else 'def'
+        exec(f"{kw} meth(p0, p1='D'):\n    log.append([p0, p1])\n    return [p0, p1]\n", ns)
+        schema = {'type': 'object', 'properties': {'p0': _fragment(ob['frag']), 'p1': {}}}
+        meth = validator.validate(ns['meth'], schema=schema)
+        wire = Wire(env)
+        d = (pjrpc.server.AsyncDispatcher if is_async else pjrpc.server.Dispatcher)(**wire.kwargs())
+        d.add(meth, name='plain')
+        d.add(meth, name='withctx', context='p0')
+
+        def call(name, params):
+            out = d.dispatch(wire.encode({'jsonrpc': '2.0', 'id': 1, 'method': name, 'params': params}), 'CTX')
+            if is_async:
+                out = run_coro(out)
+            return wire.decode(out[0])
+
+        v = _value(env, ob['vk'], 'p0')
+        conforms = _conforms(ob['frag'], ob['vk'], v)
+        plain_params = [v] if ob['passing'] == 'pos' else {'p0': v}
+        ctx_params = [7] if ob['passing'] == 'pos' else {'p1': 7}
+        order = ('withctx', 'plain') if env.bool('ctx_first') else ('plain', 'withctx')
+        try:
+            res = {name: call(name, ctx_params if name == 'withctx' else plain_params) for name in order}
+            steal = call('withctx', {'p0': 1, 'p1': 2})          # the client must not be able to set the context
+        except Exception as e:
+            raise Violation('raised:' + type(e).__name__, order)
+        env.reached()
+        r = res['plain']
+        if conforms:
+            if 'error' in r or not same_json(r.get('result'), [v, 'D']):
+                raise Violation('conforming-call-refused-or-changed', (order, plain_params, r))
+        elif 'error' not in r or r['error'].get('code') != -32602:
+            raise Violation('non-conforming-call-not-32602', (order, plain_params, r))
+        r = res['withctx']
+        if 'error' in r or not same_json(r.get('result'), ['CTX', 7]):
+            raise Violation('context-registration-misbinds', (order, ctx_params, r))
+        if 'error' not in steal or steal['error'].get('code') != -32602:
+            raise Violation('client-set-the-context-parameter', (order, steal))
+        return [order[0], conforms]
 
     return run
